@@ -64,14 +64,17 @@ def probe(F):
     return eol.join(D.join([b"a", b"b", b"c", b"d"]) for _ in range(3)) + eol
 
 
-def space():
+def space(rng):
     for mode in ("f", "c", "b", "l", "dflt"):
         for bk in (["asc"] if mode == "dflt" else ["asc", "desc", "fmt", "share"]):
             for d in ("absent", "one", "other"):
                 for r in ("absent", "one", "other"):
                     for M in ("absent", "zero", "pos"):
-                        for bits in itertools.product((False, True), repeat=12):
-                            e, g, p, s, z, m, j, nj, json, t, fb, extra = bits
+                        # -z and --fallback-oob are proved irrelevant to the decision (decision_ignores_z_fallback) and an unknown
+                        # argument rejects whatever else is given: they are drawn per set instead of multiplying the space by 8
+                        for bits in itertools.product((False, True), repeat=9):
+                            e, g, p, s, m, j, nj, json, t = bits
+                            z, fb, extra = rng.random() < 0.3, rng.random() < 0.3, rng.random() < 0.05
                             txt, fmt, fwd = BOUNDS[bk]
                             if mode == "dflt":
                                 fmt, fwd = False, True
@@ -92,10 +95,10 @@ def run(chk):
     rng = chk.rng
     full = None
     if chk.tier == "thorough":
-        sets = list(space())
+        sets = list(space(rng))
         chk.exhaustive = True
     else:
-        # sample without materialising the 2.6 M-element space: draw each coordinate
+        # sample without materialising the whole space: draw each coordinate
         sets = []
         for _ in range(20000):
             mode = rng.choice(["f", "f", "c", "b", "l", "dflt"])
